@@ -28,11 +28,11 @@ POOLS = {"int64": [-3, -2, -1, 0, 1, 2, 3, 5], "int32": [-3, -1, 0, 1, 2, 7], "u
          "float64": [-2.5, -1.5, -0.5, 0.0, 0.5, 1.5, 2.25, 3.0], "float32": [-1.5, 0.0, 0.5, 2.0], "complex128": [-2.0, -0.5, 0.0, 1.0, 1.5]}
 
 
-def poly_spec(rng, shape, dtype="int64", terms=None, retain=False):
+def poly_spec(rng, shape, dtype="int64", terms=None, retain=False, names=None):
     """rand_poly with an exact number of terms (terms=None: 1..3) over names drawn from q0,q1,q2,q10."""
     k = terms or rng.randint(1, 3)
     while True:
-        s = rand_poly(rng, shape=shape if 0 not in shape else (), maxterms=k, dtype=dtype, pool=POOLS[dtype], names_pool=NAMES)
+        s = rand_poly(rng, shape=shape if 0 not in shape else (), maxterms=k, dtype=dtype, pool=POOLS[dtype], names_pool=NAMES, names=names)
         if len(s["exponents"]) == k:
             break
     if 0 in shape:
@@ -101,7 +101,59 @@ def _reproduce(p, how):
     return {"copy.copy": copy.copy, "copy.deepcopy": copy.deepcopy, "method.copy": lambda x: x.copy()}[how](p)
 
 
+def zero_term_spec(rng, shape, dtype, k, z):
+    """k stored terms over 2-3 names of which z non-constant ones have all-zero coefficients (retain=True keeps them)."""
+    names = sorted(rng.sample(NAMES, rng.choice([2, 3])), key=lambda n: int(n[1:]))
+    while True:
+        s = poly_spec(rng, shape, dtype, terms=k, retain=True, names=names)
+        nonconst = [t for t, e in enumerate(s["exponents"]) if any(e)]
+        if len(nonconst) >= z:
+            break
+    for t in rng.sample(nonconst, z):
+        s["coefficients"][t] = numpy.zeros(shape, dtype=int).tolist()
+        if "im" in s:
+            s["im"][t] = numpy.zeros(shape, dtype=int).tolist()
+    return s
+
+
+def gen_zero_terms(tier, rng):
+    for k, z in [(3, 1), (4, 1), (5, 2), (2, 1), (4, 3), (6, 3)]:
+        for dtype in ("int64", "float64", "complex128", "bool"):
+            for shape in (ALL_SHAPES if tier == "thorough" else rng.sample(ALL_SHAPES, 3)):
+                spec = zero_term_spec(rng, shape, dtype, k, z)
+                for how in HOWS:
+                    if tier == "thorough" or rng.random() < 0.5:
+                        yield {"poly": spec, "how": how}
+    for prep in ("align_polynomials", "align_exponents"):       # storage widened by numpoly's own alignment
+        for dtype in ("int64", "float64"):
+            for shape in (ALL_SHAPES if tier == "thorough" else rng.sample(ALL_SHAPES, 3)):
+                for _ in range(count(tier, 1, 3)):
+                    spec = poly_spec(rng, shape, dtype, retain=False)
+                    other = poly_spec(rng, rng.choice([(), shape]), rng.choice(["int64", "float64"]), terms=rng.randint(2, 3))
+                    for how in HOWS:
+                        if tier == "thorough" or rng.random() < 0.5:
+                            yield {"poly": spec, "how": how, "prep": prep, "other": other}
+
+
+def usable(p, q, what):
+    """The restored object can be used like the original: attribute access, repr, comparison with the original."""
+    try:
+        n = (len(q.coefficients), len(numpy.asarray(q.exponents)), len(q.keys))
+        text = repr(q)
+        eq = q == p
+    except Exception as e:
+        return f"{what}: the restored object is not usable: {type(e).__name__}: {str(e)[:150]}"
+    if len(set(n)) != 1:
+        return f"{what}: {n[0]} coefficient arrays, {n[1]} exponent rows, {n[2]} keys"
+    if not text.startswith("polynomial("):
+        return f"{what}: repr of the restored object is {text!r:.80}"
+    if numpy.shape(eq) != tuple(p.shape) or numpy.asarray(eq).dtype != bool or not numpy.all(eq):
+        return f"{what}: restored == original gives {eq!r:.120}"
+    return None
+
+
 def gen_repro(tier, rng):
+    yield from gen_zero_terms(tier, rng)
     for dtype in POOLS:
         for shape in ALL_SHAPES:
             for _ in range(count(tier, 1, 8)):
@@ -120,15 +172,23 @@ def gen_repro0(tier, rng):
 
 
 def repro_check(inp):
+    import numpoly
     spec = decode(inp["poly"])
     p = build(spec)
+    if inp.get("prep"):
+        other = build(decode(inp["other"]))
+        p = numpoly.align_polynomials(p, other)[0] if inp["prep"] == "align_polynomials" else numpoly.align_exponents(p, other)[0]
+        if tuple(p.shape) == tuple(spec["coefficients"][0].shape) and not same(from_ndpoly(p), spec_model(spec)):
+            return f"input construction: numpoly.{inp['prep']} changed the value of its first argument"
+        spec = dict(spec, coefficients=[numpy.broadcast_to(c, p.shape) for c in spec["coefficients"]])
     raw_before = numpy.ndarray.view(p, numpy.ndarray).tobytes()
     if tuple(p.shape) != tuple(spec["coefficients"][0].shape):
         return f"input construction: ndpoly.from_attributes gives shape {tuple(p.shape)} for coefficient shape {spec['coefficients'][0].shape}"
     with warnings.catch_warnings():
         warnings.simplefilter("ignore")
         q = _reproduce(p, inp["how"])
-    r = reproduced(p, q, spec_model(spec), not inp["poly"].get("retain", True), inp["how"])
+    canonical = not inp["poly"].get("retain", True) and not inp.get("prep")
+    r = reproduced(p, q, spec_model(spec), canonical, inp["how"]) or (usable(p, q, inp["how"]) if p.size else None)
     if r is None and numpy.ndarray.view(p, numpy.ndarray).tobytes() != raw_before:
         return f"{inp['how']}: the original was modified"
     return r
@@ -137,7 +197,10 @@ def repro_check(inp):
 check("C13", "pickle_copy.exact", gen_repro, functions=("numpoly.ndpoly.__reduce__", "numpoly.polynomial_from_attributes", "numpoly.ndpoly.copy"),
       note=f"bounded: pickle protocols 0..{pickle.HIGHEST_PROTOCOL}, copy.copy, copy.deepcopy, .copy(); 10 shapes of 0-3 dimensions, 1-3 terms, "
            "<=3 names from q0,q1,q2,q10, exponents<=3, dtypes int64/int32/uint8/bool/float64/float32/complex128; canonical inputs: shape, "
-           "dtype, names, exponents, coefficients identical; inputs storing all-zero terms: same except that all-zero terms may be dropped")(repro_check)
+           "dtype, names, exponents, coefficients identical; inputs storing all-zero terms (1 of 3, 1 of 4, 2 of 5, 1 of 2, 3 of 4, 3 of 6 "
+           "terms zero via retain_coefficients=True, or the first result of align_polynomials/align_exponents against a second polynomial): "
+           "same except that all-zero terms may be dropped; the restored object must be usable (.coefficients/.exponents/.keys of equal "
+           "length, repr, == original all True)")(repro_check)
 check("C13", "pickle_copy.size0", gen_repro0, functions=("numpoly.ndpoly.__reduce__", "numpoly.polynomial_from_attributes", "numpoly.ndpoly.copy"),
       note="bounded: shapes (0,), (0,3), (2,0) with int64/float64/complex128, 1-2 terms, all reproduction routes")(repro_check)
 
@@ -196,6 +259,9 @@ def _save_load(X, o, tmp):
         return None, text, f"numpoly.loadtxt raised {type(e).__name__}: {str(e)[:150]} (file: {text[:160]!r})"
 
 
+LAYOUTS = {"T": lambda x: x.T, "swapaxes": lambda x: x.swapaxes(0, -1), "F": lambda x: x.copy(order="F")}
+
+
 def gen_text(tier, rng):
     for shape in TXT_SHAPES:
         for terms in (1, 2, 3):
@@ -206,18 +272,30 @@ def gen_text(tier, rng):
                             yield {"poly": poly_spec(rng, shape, dtype, terms), "options": {"target": target, "writer": writer}}
                 for _ in range(count(tier, 2, 30)):
                     yield {"poly": poly_spec(rng, shape, dtype, terms, retain=rng.random() < 0.2), "options": _io_options(rng, dtype)}
+    for shape in [(2, 3), (3, 2), (2, 1, 2), (2, 3, 2), (4, 2)]:        # non-C-contiguous storage of >= 2 dimensions
+        for layout in LAYOUTS:
+            for writer in ("numpoly", "numpy"):
+                for _ in range(count(tier, 1, 6)):
+                    o = dict(_io_options(rng, "int64") if rng.random() < 0.5 else {"target": rng.choice(TARGETS)}, writer=writer)
+                    yield {"poly": poly_spec(rng, shape, rng.choice(["int64", "float64"]) if "fmt" not in o else "int64", rng.randint(1, 3)),
+                           "options": o, "layout": layout}
 
 
 @check("C13", "savetxt_loadtxt.roundtrip", gen_text, functions=("numpoly.savetxt", "numpoly.loadtxt"),
        note="bounded: shapes (), (1,), (3,), (1,1), (2,3), (2,1,2); exactly 1, 2 or 3 terms; names from q0,q1,q2,q10; int64 and float64 "
             "coefficients that every used format prints exactly (small ints, halves, quarters); writers numpoly.savetxt and numpy.savetxt; "
             "targets str path, pathlib.Path, io.StringIO; fmt %.18e/%d/%g/%.3f/%.6e/%8.2f, delimiters ' ' ',' ';' tab ', ', comments "
-            "'# ' '#' '% ' '//', 0-2 extra header lines, footer; loaded array must have the same shape, names and exact values")
+            "'# ' '#' '% ' '//', 0-2 extra header lines, footer; loaded array must have the same shape, names and exact values; also "
+            "non-C-contiguous inputs p.T, p.swapaxes(0,-1), p.copy(order='F') of base shapes (2,3), (3,2), (2,1,2), (2,3,2), (4,2), 1-3 terms")
 def text_roundtrip(inp):
     import numpoly
     spec = decode(inp["poly"])
     p = build(spec)
     model = spec_model(spec)
+    if "layout" in inp:                 # the same view/copy of the polynomial array and of its model
+        p, model = LAYOUTS[inp["layout"]](p), LAYOUTS[inp["layout"]](model)
+        if not isinstance(p, numpoly.ndpoly) or tuple(p.shape) != model.shape or not same(from_ndpoly(p), model):
+            return f"input construction: {inp['layout']} of the polynomial array is not the {inp['layout']} of its elements"
     with tempfile.TemporaryDirectory(prefix="c13_") as tmp, warnings.catch_warnings():
         warnings.simplefilter("ignore")
         got, text, err = _save_load(p, inp["options"], tmp)
